@@ -27,8 +27,10 @@ type upIface struct {
 	got      chan []byte
 }
 
-func (u *upIface) VarlinkGetName() string        { return "org.example.up" }
-func (u *upIface) VarlinkGetDescription() string { return "interface org.example.up\nmethod Up() -> ()\n" }
+func (u *upIface) VarlinkGetName() string { return "org.example.up" }
+func (u *upIface) VarlinkGetDescription() string {
+	return "interface org.example.up\nmethod Up() -> ()\n"
+}
 func (u *upIface) VarlinkDispatch(ctx context.Context, c varlink.Call, method string) error {
 	if !c.WantsUpgrade() {
 		return c.ReplyInvalidParameter(ctx, "upgrade")
